@@ -242,7 +242,7 @@ func genTime(r *mrand.Rand) (time.Time, string, bool) {
 	ns := r.IntN(1e9)
 	var t time.Time
 	var cls string
-	switch r.IntN(16) {
+	switch r.IntN(36) {
 	case 0:
 		t, cls = time.Date(1, 1, 1, 0, 0, r.IntN(60), ns, time.UTC), "year1"
 	case 1:
@@ -271,7 +271,7 @@ func genTime(r *mrand.Rand) (time.Time, string, bool) {
 		t, cls = time.Date(-1-r.IntN(5), 6, 1, 0, 0, 0, 0, time.UTC), "year<0"
 	case 12:
 		t, cls = time.Date(0, 6, 1, 0, 0, 0, 0, time.UTC), "year0"
-	case 13:
+	case 13, 14:
 		t, cls = time.Date(1000+r.IntN(900), time.Month(1+r.IntN(12)), 1+r.IntN(28), r.IntN(24), r.IntN(60), r.IntN(60), ns, time.UTC), "pre-1900"
 	default:
 		t, cls = time.Date(1950+r.IntN(150), time.Month(1+r.IntN(12)), 1+r.IntN(28), r.IntN(24), r.IntN(60), r.IntN(60), ns, time.UTC), "rand"
@@ -375,7 +375,13 @@ func cmpGoRef(got *ocsp.Response, w *ocspref.Resp, idx int) []string {
 	if !got.ThisUpdate.Equal(s.ThisUpdate) {
 		bad = append(bad, "ThisUpdate")
 	}
-	if s.HasNext != !got.NextUpdate.IsZero() || (s.HasNext && !got.NextUpdate.Equal(s.NextUpdate)) {
+	// an absent nextUpdate is reported as the zero time.Time, which is also the
+	// representable instant 0001-01-01T00:00:00Z: the API cannot tell them apart
+	wantNext := time.Time{}
+	if s.HasNext {
+		wantNext = s.NextUpdate
+	}
+	if !got.NextUpdate.Equal(wantNext) {
 		bad = append(bad, "NextUpdate")
 	}
 	if s.Status == 1 {
